@@ -34,8 +34,9 @@ PROOFS = {
     "GenMemStore": "L5_Stores/GenMemStoreProofs.v",
     "GenArgCtx": "L1_Args/GenArgCtxProofs.v",
 }
-PROPERTIES = ["Properties/C12g.v", "Properties/C14g.v", "Properties/C15g.v", "Properties/C08g.v", "Properties/C17g.v", "Properties/C08m.v", "Properties/C13g.v"]
-OURS = {os.path.splitext(os.path.basename(p))[0] for p in list(PROOFS.values()) + PROPERTIES} | set(GEN)
+EXTRA_PROOFS = ["L5_Stores/GenStackProofs.v"]      # proofs about several generated files together: compiled after all of PROOFS
+PROPERTIES = ["Properties/C12g.v", "Properties/C14g.v", "Properties/C15g.v", "Properties/C08g.v", "Properties/C17g.v", "Properties/C08m.v", "Properties/C13g.v", "Properties/C12m.v"]
+OURS = {os.path.splitext(os.path.basename(p))[0] for p in list(PROOFS.values()) + PROPERTIES + ["L5_Stores/GenStackProofs.v"]} | set(GEN)
 SRC_REPO = os.environ.get("DDS_REPO", "/repo")
 
 LRU, API, CTX, STORE, CODEC = "dds/_lru_store.py", "dds/_api.py", "dds/_eval_ctx.py", "dds/store.py", "dds/codec.py"
@@ -231,6 +232,13 @@ def run_scenario(name, edits, root):
         else:
             proved.append(g)
     if len(proved) == len(GEN):
+        for extra in EXTRA_PROOFS:
+            dst = os.path.join(theories, extra)
+            shutil.copy(os.path.join(C.THEORIES, extra), dst)
+            rc, o = coqc(theories, dst)
+            if rc != 0:
+                res["proofs"].append(extra)
+                res["log"] += f"\n--- {extra}\n" + o[-1500:]
         tot_closed = tot_pa = 0
         for prop in PROPERTIES:
             dst = os.path.join(theories, prop)
